@@ -55,7 +55,7 @@ CompileFails(ast) == \E x \in BinPaths(ast, <<>>) : ~DynOperands(x[2]) /\ CacheE
 (* ---------------- Type(scope): [t |-> type tag or "err", c |-> cache'] ---------------- *)
 RECURSIVE IType(_, _, _, _), ITypeArgs(_, _, _, _, _, _)
 IType(n, p, sc, c) ==
-    CASE n[1] = "L" -> [t |-> n[2][1], c |-> c]
+    CASE n[1] = "L" -> [t |-> Tag(n[2]), c |-> c]
       [] n[1] = "R" -> [t |-> IF n[2] \in DOMAIN sc THEN Tag(sc[n[2]]) ELSE "err", c |-> c]
       [] n[1] = "X" -> IF ConstType(n) # "inv" THEN [t |-> ConstType(n), c |-> c] ELSE IType(n[2], p \o <<1>>, sc, c)
       [] n[1] = "U" ->
@@ -96,7 +96,7 @@ RECURSIVE IEval(_, _, _, _, _, _, _, _), IBin(_, _, _, _, _, _, _, _), IDyn(_, _
 (* IEval(n, p, T, sc, c, s, bk, k): evaluate node n (at path p) as type T; s maps buckets to function states, *)
 (* bk is the bucket in use, k the copy.                                                                        *)
 IEval(n, p, T, sc, c, s, bk, k) ==
-    CASE n[1] = "L" -> Res(IF n[2][1] = T THEN Ok(n[2]) ELSE Guard(n[2][1]), c, s)
+    CASE n[1] = "L" -> Res(IF Tag(n[2]) = T THEN Ok(n[2]) ELSE Guard(Tag(n[2])), c, s)
       [] n[1] = "R" ->
             Res(IF n[2] \notin DOMAIN sc THEN Fail
                 ELSE IF Tag(sc[n[2]]) = T THEN Ok(sc[n[2]])
